@@ -1211,6 +1211,10 @@ func genATPlanTweaked(seed uint64, tier, mode string, tweak func(g *simkit.Gen, 
 	p.Opts.UniqueIndex = g.Prob(0.25)
 	p.Opts.ContinueAfterError = g.Prob(0.2)
 	p.Opts.UpsertOtherRow = p.Opts.UniqueIndex && g.Prob(0.15)
+	if p.Opts.UpsertOtherRow {
+		// preset: such a run is about multi-row upserts
+		p.Opts.Upsert, p.Opts.MultiRow, p.Opts.MultiUpsert = true, true, true
+	}
 	if g.Prob(0.06) {
 		// preset: undo logs dominated by one high-entropy value, under a
 		// compressor (a block compressor refuses what it cannot shrink)
